@@ -34,11 +34,12 @@ type c13Case struct {
 type c13Model struct {
 	db     int
 	auth   bool
-	conn   string
+	conn   *redis.Conn // kept referenced, so the address cannot be reused while it is compared
 	tagged bool
 }
 
 type c13World struct {
+	keep     []*redis.Conn // every connection object seen stays referenced for the whole execution
 	mc       *mcWorld
 	password bool
 	model    []*c13Model
@@ -60,6 +61,7 @@ func c13ScriptSet(i int) [][][]string {
 		{{"AUTH", c13Pass}, {"SELECT", "3"}, {"GET", k}},
 		{{"SELECT", "abc"}, {"GET", k}},
 		{{"AUTH", c13Pass}, {"SELECT", "3"}, {"AUTH", "wrong"}, {"GET", k}},
+		{{"AUTH", "admin", "wrong"}, {"AUTH", c13Pass}, {"GET", k}},
 		{{"AUTH", c13Pass}, {"SELECT", "7"}, {"GET", k}, {"GET", k}}, // with reconnect before the last GET
 	}
 }
@@ -95,15 +97,15 @@ func c13NewWorld(scripts [][][]string, password bool, reconn []int) *c13World {
 			if w.password && !md.auth {
 				w.fail("executed-without-auth", fmt.Sprintf("client %d never authenticated on this connection but %s was executed", ci, c.Method))
 			}
-			id := fmt.Sprintf("%p", conn)
-			if md.conn == "" {
-				md.conn = id
+			if md.conn == nil {
+				md.conn = conn
+				w.keep = append(w.keep, conn)
 				for cj, o := range w.model {
-					if cj != ci && o.conn == id {
+					if cj != ci && o.conn == conn {
 						w.fail("conn-shared", fmt.Sprintf("clients %d and %d are served with the same connection object", ci, cj))
 					}
 				}
-			} else if md.conn != id {
+			} else if md.conn != conn {
 				w.fail("conn-identity-changed", fmt.Sprintf("client %d: the connection object changed between its requests", ci))
 			}
 			tag := "client" + strconv.Itoa(ci)
@@ -150,7 +152,7 @@ func c13NewWorld(scripts [][][]string, password bool, reconn []int) *c13World {
 			}
 			md.db = n
 		case "AUTH":
-			good := cmd[1] == c13Pass
+			good := len(cmd) == 2 && cmd[1] == c13Pass
 			if !w.password {
 				return // no expectation without a configured password
 			}
@@ -476,7 +478,7 @@ func init() {
 	fw.Register(&fw.Prop{
 		ID:          "C13",
 		Level:       "model_checking",
-		Rule:        "(STATE) breadth-first closure of one connection's state machine over the events {SELECT 0/1/7, SELECT abc, GET, AUTH password, AUTH wrong, disconnect+reconnect}, with and without a configured password, canonical state (database, authorized) observed inside the handler through a probe; (SCHED) two connections through the real Start/accept loop/connection goroutines, each running one of 7 scripts (SELECT/SET/GET, AUTH then SELECT, failing SELECT, failed AUTH after a good one, reconnect) x with/without password = 98 scenarios, every schedule within deviation bound 2 (thorough: three connections, and bound 3); inside every handler call the issuing client's own model (database, authorization, connection object identity, per-connection user data in the sync.Map) is compared with what the handler sees.",
+		Rule:        "(STATE) breadth-first closure of one connection's state machine over the events {SELECT 0/1/7, SELECT abc, GET, AUTH password, AUTH wrong, disconnect+reconnect}, with and without a configured password, canonical state (database, authorized) observed inside the handler through a probe; (SCHED) two connections through the real Start/accept loop/connection goroutines, each running one of 8 scripts (SELECT/SET/GET, AUTH then SELECT, failing SELECT, failed AUTH after a good one, reconnect) x with/without password = 128 scenarios, every schedule within deviation bound 2 (thorough: three connections, and bound 3); inside every handler call the issuing client's own model (database, authorization, connection object identity, per-connection user data in the sync.Map) is compared with what the handler sees.",
 		Assumptions: []string{"sequentially consistent interleavings; deviation (delay) bounded", "client counts above 3 are not explored"},
 		Run:         c13Run,
 		Replay:      c13Replay,
